@@ -888,6 +888,9 @@ PROPS["C15"] = {
         "Lace.C15.refused_noop",
         "Lace.C15.eval_refusals_noop",
         "Lace.C15.eval_never_ends_session_partial",
+        "Lace.C15.parseSimple_no_panic_holds",
+        "Lace.C15.parseSimple_diag_inside",
+        "Lace.C15.eval_text_total",
     ],
     "compare": cmp_default,
     "classify": src_classify,
